@@ -93,6 +93,10 @@ func (l *Link) send(ctx context.Context, b []byte) error {
 	}
 	if l.w.free {
 		// free-running pass: the link delivers by itself
+		if k := l.w.sc.FreeLoss; k > 0 && l.sent%k == 0 {
+			l.dropped++
+			return nil
+		}
 		l.delivered++
 		l.inbox <- p.Data
 		return nil
